@@ -51,8 +51,13 @@ use ractor_cluster::remote_actor_verif_hooks::ProxyProbe;
 ///   spawn                           a new probe (index = next)             -> ok
 ///   stop <t>                        the probe exits                        -> ok
 ///   status <dir> <t>                status of that side's proxy            -> Running|Stopped|…|none
+///   stopproxy <dir> <t>             `stop` on node dir's remote reference of probe t (not on the original) -> ok|none
+///   releaseheld <t>                 the original answers every request it holds, oldest first -> ok
 ///   cutafter <dir> <n>              the link dies after n more bytes in direction dir -> ok
 ///   cut                             the link dies now                      -> ok
+///   fault <dir> read|write|flush    node dir's own end of the link reports an I/O error on its next read /
+///                                   write_all / flush (write, flush: half-open - its reads stay silent)  -> ok
+///   faultseen <dir>                 has that transport reported the error to the session? -> reported|unreported
 mod e2e {
     use std::collections::HashMap;
     use std::sync::atomic::{AtomicI64, Ordering};
@@ -72,6 +77,8 @@ mod e2e {
         Call(u64, RpcReplyPort<u64>),
         #[rpc]
         Hold(u64, RpcReplyPort<u64>),
+        /// answer every held request, oldest first
+        Release,
     }
 
     pub fn reply_of(target: u64, req: u64) -> u64 {
@@ -84,7 +91,7 @@ mod e2e {
     }
     struct ProbeState {
         log: ProbeLog,
-        held: Vec<RpcReplyPort<u64>>,
+        held: Vec<(u64, RpcReplyPort<u64>)>,
     }
 
     impl Actor for Probe {
@@ -103,21 +110,109 @@ mod e2e {
                 }
                 ProbeMsg::Hold(req, port) => {
                     st.log.lock().unwrap().push(format!("h{req}"));
-                    st.held.push(port);
+                    st.held.push((req, port));
+                }
+                ProbeMsg::Release => {
+                    for (req, port) in st.held.drain(..) {
+                        let _ = port.send(reply_of(self.idx, req));
+                    }
                 }
             }
             Ok(())
         }
     }
 
+    /// Transport faults a node's own end of the link can be told to report (`fault <dir> <kind>`):
+    /// 0 none, 1 the next read fails (ConnectionReset), 2 the next write fails (BrokenPipe),
+    /// 3 writes are accepted into a buffer nobody drains and the next flush fails
+    /// (ConnectionReset). In modes 2 and 3 the connection is half-open: reads never return
+    /// (neither data nor EOF), so only the writer task can notice the loss.
+    #[derive(Default)]
+    pub struct Fault {
+        mode: std::sync::atomic::AtomicU8,
+        reader: Mutex<Option<std::task::Waker>>,
+        /// how often the transport reported the fault to the session
+        reported: std::sync::atomic::AtomicU64,
+    }
+    impl Fault {
+        fn mode(&self) -> u8 {
+            self.mode.load(Ordering::SeqCst)
+        }
+        fn set(&self, m: u8) {
+            self.mode.store(m, Ordering::SeqCst);
+            if let Some(w) = self.reader.lock().unwrap().take() {
+                w.wake();
+            }
+        }
+    }
+    struct FaultyRead {
+        inner: tokio::io::ReadHalf<tokio::io::DuplexStream>,
+        fault: Arc<Fault>,
+    }
+    impl tokio::io::AsyncRead for FaultyRead {
+        fn poll_read(
+            mut self: std::pin::Pin<&mut Self>,
+            cx: &mut std::task::Context<'_>,
+            buf: &mut tokio::io::ReadBuf<'_>,
+        ) -> std::task::Poll<std::io::Result<()>> {
+            match self.fault.mode() {
+                1 => {
+                    self.fault.reported.fetch_add(1, Ordering::SeqCst);
+                    std::task::Poll::Ready(Err(std::io::Error::new(std::io::ErrorKind::ConnectionReset, "injected read fault")))
+                }
+                2 | 3 => {
+                    *self.fault.reader.lock().unwrap() = Some(cx.waker().clone());
+                    std::task::Poll::Pending
+                }
+                _ => {
+                    *self.fault.reader.lock().unwrap() = Some(cx.waker().clone());
+                    std::pin::Pin::new(&mut self.inner).poll_read(cx, buf)
+                }
+            }
+        }
+    }
+    struct FaultyWrite {
+        inner: tokio::io::WriteHalf<tokio::io::DuplexStream>,
+        fault: Arc<Fault>,
+    }
+    impl tokio::io::AsyncWrite for FaultyWrite {
+        fn poll_write(
+            mut self: std::pin::Pin<&mut Self>,
+            cx: &mut std::task::Context<'_>,
+            buf: &[u8],
+        ) -> std::task::Poll<std::io::Result<usize>> {
+            match self.fault.mode() {
+                2 => {
+                    self.fault.reported.fetch_add(1, Ordering::SeqCst);
+                    std::task::Poll::Ready(Err(std::io::Error::new(std::io::ErrorKind::BrokenPipe, "injected write fault")))
+                }
+                3 => std::task::Poll::Ready(Ok(buf.len())),
+                _ => std::pin::Pin::new(&mut self.inner).poll_write(cx, buf),
+            }
+        }
+        fn poll_flush(mut self: std::pin::Pin<&mut Self>, cx: &mut std::task::Context<'_>) -> std::task::Poll<std::io::Result<()>> {
+            match self.fault.mode() {
+                3 => {
+                    self.fault.reported.fetch_add(1, Ordering::SeqCst);
+                    std::task::Poll::Ready(Err(std::io::Error::new(std::io::ErrorKind::ConnectionReset, "injected flush fault")))
+                }
+                _ => std::pin::Pin::new(&mut self.inner).poll_flush(cx),
+            }
+        }
+        fn poll_shutdown(mut self: std::pin::Pin<&mut Self>, cx: &mut std::task::Context<'_>) -> std::task::Poll<std::io::Result<()>> {
+            std::pin::Pin::new(&mut self.inner).poll_shutdown(cx)
+        }
+    }
+
     struct Duplex {
         stream: tokio::io::DuplexStream,
         label: String,
+        fault: Arc<Fault>,
     }
     impl ClusterBidiStream for Duplex {
         fn split(self: Box<Self>) -> (BoxRead, BoxWrite) {
             let (r, w) = tokio::io::split(self.stream);
-            (Box::new(r), Box::new(w))
+            (Box::new(FaultyRead { inner: r, fault: self.fault.clone() }), Box::new(FaultyWrite { inner: w, fault: self.fault }))
         }
         fn peer_label(&self) -> Option<String> {
             Some(self.label.clone())
@@ -255,6 +350,8 @@ mod e2e {
         holds: [Arc<AtomicI64>; 2],
         gate: tokio::sync::watch::Sender<bool>,
         kill: tokio::sync::watch::Sender<bool>,
+        /// fault switches of A's and B's own end of the link
+        faults: [Arc<Fault>; 2],
         nid: [u64; 2],
         /// proxies seen so far: (dir, probe) -> cell (kept to observe them after they left pg)
         proxies: HashMap<(usize, usize), ActorCell>,
@@ -327,7 +424,7 @@ mod e2e {
                 let (sa, sb) = tokio::io::duplex(1024);
                 drop(sb);
                 a.0.cast(NodeServerMessage::ConnectionOpenedExternal {
-                    stream: Box::new(Duplex { stream: sa, label: "throwaway".into() }),
+                    stream: Box::new(Duplex { stream: sa, label: "throwaway".into(), fault: Arc::default() }),
                     is_server: true,
                 })
                 .ok()?;
@@ -348,6 +445,7 @@ mod e2e {
                 holds: [Arc::new(AtomicI64::new(i64::MAX)), Arc::new(AtomicI64::new(i64::MAX))],
                 gate: tokio::sync::watch::channel(false).0,
                 kill,
+                faults: [Arc::default(), Arc::default()],
                 nid: [u64::MAX, u64::MAX],
                 proxies: HashMap::new(),
             };
@@ -385,12 +483,12 @@ mod e2e {
             tokio::spawn(pump(ar, bw, w.rng.fork(), w.budgets[0].clone(), w.kill.clone(), w.kill.subscribe(), moved.clone(), (w.holds[0].clone(), w.gate.subscribe())));
             tokio::spawn(pump(br, aw, w.rng.fork(), w.budgets[1].clone(), w.kill.clone(), w.kill.subscribe(), moved, (w.holds[1].clone(), w.gate.subscribe())));
             w.a.cast(NodeServerMessage::ConnectionOpenedExternal {
-                stream: Box::new(Duplex { stream: a_sess, label: "link".into() }),
+                stream: Box::new(Duplex { stream: a_sess, label: "link".into(), fault: w.faults[0].clone() }),
                 is_server: a_is_server,
             })
             .ok()?;
             w.b.cast(NodeServerMessage::ConnectionOpenedExternal {
-                stream: Box::new(Duplex { stream: b_sess, label: "link".into() }),
+                stream: Box::new(Duplex { stream: b_sess, label: "link".into(), fault: w.faults[1].clone() }),
                 is_server: !a_is_server,
             })
             .ok()?;
@@ -465,6 +563,9 @@ mod e2e {
                 }
                 ["advance", ms] => {
                     st.bump("e_advance");
+                    if ms.parse::<u64>().unwrap_or(0) >= 5000 {
+                        st.bump("e_advance_past_ping_period");
+                    }
                     tokio::time::advance(std::time::Duration::from_millis(ms.parse().unwrap())).await;
                     for _ in 0..4 {
                         tokio::task::yield_now().await;
@@ -658,6 +759,45 @@ mod e2e {
                     st.bump("e_cut");
                     self.budgets[Self::dir(d)].store(n.parse().unwrap(), Ordering::SeqCst);
                     "ok".into()
+                }
+                ["stopproxy", d, t] => {
+                    // somebody stops the remote REFERENCE (not the original): `ActorCell::stop` on a pg member
+                    st.bump("e_stopproxy");
+                    let t: usize = t.parse().unwrap();
+                    match self.proxy(Self::dir(d), t) {
+                        None => "none".into(),
+                        Some(c) => {
+                            c.stop(None);
+                            "ok".into()
+                        }
+                    }
+                }
+                ["releaseheld", t] => {
+                    // the original answers every request it holds (sent locally, not through a proxy)
+                    st.bump("e_releaseheld");
+                    let t: usize = t.parse().unwrap();
+                    match self.probes.get(t) {
+                        None => "noprobe".into(),
+                        Some((a, _)) => match a.cast(ProbeMsg::Release) {
+                            Ok(()) => "ok".into(),
+                            Err(_) => "err".into(),
+                        },
+                    }
+                }
+                ["fault", d, kind] => {
+                    st.bump("e_fault");
+                    st.bump(&format!("e_fault_{kind}"));
+                    let m = match *kind { "read" => 1, "write" => 2, "flush" => 3, _ => 0 };
+                    self.faults[Self::dir(d)].set(m);
+                    for _ in 0..4 {
+                        tokio::task::yield_now().await;
+                    }
+                    "ok".into()
+                }
+                ["faultseen", d] => {
+                    // did the transport get to report the fault to the session?
+                    let n = self.faults[Self::dir(d)].reported.load(Ordering::SeqCst);
+                    if n > 0 { "reported".into() } else { "unreported".into() }
                 }
                 ["release"] => {
                     st.bump("e_release");
@@ -868,6 +1008,13 @@ mod e2e {
                 clock += ms;
                 ops.push(format!("advance {ms}"));
             }
+            // a quiet period longer than the ping period: both nodes ping, both answer with a pong,
+            // nothing else may change
+            if !cut && rng.chance(1, 12) {
+                ops.push("settle".into());
+                ops.push("advance 6000".into());
+                ops.push("settle".into());
+            }
             // sometimes a lifecycle event races with the traffic, sometimes it comes at rest
             if rng.chance(1, 2) {
                 ops.push("settle".into());
@@ -889,6 +1036,47 @@ mod e2e {
                     ops.push("spawn".into());
                     live.push(all);
                     all += 1;
+                }
+                6 if !cut => {
+                    // the transport of one node reports an I/O error: on its next read, or (half-open
+                    // connection, reads stay silent) on the next write_all / flush of its writer task -
+                    // a new probe makes both nodes send a Spawn frame
+                    let kind = *rng.pick(&["read", "write", "flush", "flush"]);
+                    if rng.chance(2, 3) {
+                        ops.push("settle".into());
+                    }
+                    let d = *rng.pick(&dirs);
+                    ops.push(format!("fault {d} {kind}"));
+                    if kind != "read" {
+                        if rng.chance(1, 2) {
+                            ops.push("spawn".into());
+                            live.push(all);
+                            all += 1;
+                        } else {
+                            // nobody sends anything: the ping loop (period 1-5 s) is what meets the fault
+                            ops.push("advance 6000".into());
+                        }
+                    }
+                    ops.push("settle".into());
+                    ops.push(format!("faultseen {d}"));
+                    // every remote reference must refuse sends now
+                    for t in 0..all {
+                        for d in dirs {
+                            let sender = if d == "a" { 0 } else { 10 };
+                            let seq = seqs.entry((sender / 10, t, sender)).or_insert(0);
+                            ops.push(format!("cast {d} {t} {sender} {}", *seq));
+                            *seq += 1;
+                        }
+                    }
+                    cut = true;
+                }
+                7 if !cut && !live.is_empty() && rng.chance(1, 2) => {
+                    // somebody stops one remote REFERENCE (not its original)
+                    if rng.chance(2, 3) {
+                        ops.push("settle".into());
+                    }
+                    ops.push(format!("stopproxy {} {}", rng.pick(&dirs), rng.pick(&live)));
+                    cut = true;
                 }
                 5 if !cut => {
                     if rng.chance(1, 2) {
